@@ -32,6 +32,10 @@ def setup():
     # JSON file; none of that is observed by a monitor, so keep it quiet.
     logging.disable(logging.CRITICAL)
     warnings.simplefilter('ignore')
+    # locks the library creates become scheduling points of the deterministic scheduler (pv/mon/sched.py); must happen
+    # before the library is imported
+    from pv.mon import sched
+    sched.patch_locks()
     import oslo_policy
     where = os.path.realpath(os.path.dirname(oslo_policy.__file__))
     if not where.startswith(REPO + os.sep):
